@@ -813,7 +813,6 @@ func c11UnknownNameRejected(c *Ctx) {
 	c.check(bad == "" && len(pass) > 0, "unknown-name-rejected", "buildArguments: named parameters", p.Pos(ta.Pos()), "every successful path of the by-name branch passes the unknown-name test ("+how+")", "the by-name branch reaches the successful return at "+bad+" without testing the params object for names the method does not declare: a misspelt optional parameter is silently replaced by its default")
 }
 
-
 // c11BodyLimitConstant: the HTTP transport bounds the request body with a limit the server chooses — a positive compile-time
 // constant — never with a number taken from the request. A limit derived from Content-Length is −1 for every streamed
 // (chunked / HTTP/2) request, which http.MaxBytesReader turns into 0: a perfectly valid request is answered with a parse
